@@ -15,7 +15,10 @@ import experiment.model.errors as errors
 from symx.runner import explore_parallel, Report, replay_assignment
 from symx.xh import run_e2
 
-NAMES = ['src', 'mid', 'side', 'agg', 'tail']
+NAME_FAMILIES = {'plain': ['src', 'mid', 'side', 'agg', 'tail'],
+                 # one name is the tail of another: exact on the clean tree as long as both are replicated or both are not
+                 # (a replicated 'Sim' beside a non-replicated 'PreSim' is the open finding C03-suffix-overlap-rewrite)
+                 'suffix-pair': ['src', 'Sim', 'PreSim', 'agg', 'tail']}
 
 
 def make_body(k, max_stage):
@@ -28,6 +31,10 @@ def make_body(k, max_stage):
         n_rep, via_var = ctx.choice('replicas', [(1, False), (2, False), (3, False), (2, True), (12, True)])
         rel_spelling = ctx.flag('relative_spelling_in_same_stage')
         files = ctx.flag('references_with_file_paths')
+        family = ctx.choice('names', ['plain', 'suffix-pair'])
+        NAMES = NAME_FAMILIES[family]
+        if family == 'suffix-pair':
+            ctx.assume((n_rep, via_var) == (2, False) and not files)
         comps = []
         preds = {}
         agg = {}
@@ -67,6 +74,10 @@ def make_body(k, max_stage):
         for i in range(1, k):
             R[i] = (not agg[i]) and any(R[j] for j in preds[i])
         rep = {i: (n_rep if R[i] else 1) for i in range(k)}
+        if family == 'suffix-pair':
+            ctx.assume(k < 3 or R[1] == R[2])
+            if k >= 3 and R[1] and R[2]:
+                ctx.witness('two_replicated_producers_with_overlapping_names')
         want_nodes = {}
         for i in range(k):
             if R[i]:
@@ -174,11 +185,11 @@ def main(tier, seed, only=None):
                   'per_condition_timeout_s': timeout}
     rep.outside = ['names longer than the bound in the textual layer', 'compile_component_aggregate over a symbolic name of the REPLICATED producer under CrossHair (one path > 90 s; concrete names only, via the structural layer and the native sweep)', 'more than one replication source', 'array-variable indexing with %(replica)s',
                    'DoWhile documents inside replicated regions']
-    rep.assumptions = ['E1 layer uses concrete, non-overlapping component names (name interaction is the E2 layer)',
+    rep.assumptions = ['E1 layer uses two concrete name families: non-overlapping names, and one where a name is the tail of another (Sim / PreSim) with both or neither replicated (2 replicas, no file paths); other name interaction is the E2 layer',
                        'CrossHair counterexamples replayed natively before being reported']
     rep.explanation = ('E1: bounded symbolic execution (symx/z3) of the real in-memory loader over a symbolic DAG skeleton against an independent '
                        'expander; E2: CrossHair (z3) over the textual rewriting functions with symbolic characters')
-    rep.required_witnesses = ['replicated_copy_checked', 'aggregator_checked']
+    rep.required_witnesses = ['replicated_copy_checked', 'aggregator_checked', 'two_replicated_producers_with_overlapping_names']
     if not only or 'xh' in only:
         import harness.xh.c03_contracts as C
         run_e2(rep, 'harness.xh.c03_contracts', timeout, sweep=C.sweep, key=xh_key)
